@@ -1,21 +1,27 @@
 import XdsVerif.Driver.Util
 import XdsVerif.Model.Route
+import XdsVerif.Model.Decode
 /-! JSON → decoded route structures (shared by the C08 / C15 / C11 drivers). -/
 namespace XdsVerif.Driver
 open Lean XdsVerif.Route
 
+/-- the header conditions of a route as the control plane sent them, through the decoder's `BuildMatchers` model
+(`"bad"` marks a regular expression the engine rejects: that condition is dropped, the others stay) -/
 def parseConds (j : Json) (k : String) : Except String Headers := do
   let a ← jArr j k
-  a.toList.mapM (fun e => do
+  let hs ← a.toList.mapM (fun e => do
     let p ← e.getArr?
     let key ← (p[0]!).getStr?
     let t ← jStr (p[1]!) "t"
     let v ← jStr (p[1]!) "v"
+    let bad := jBoolD (p[1]!) "bad" false
     match t with
-    | "exact" => pure (key, Matcher.exact v)
-    | "prefix" => pure (key, Matcher.pfx v)
-    | "regex" => pure (key, Matcher.regex v)
+    | "exact" => pure ((⟨key, .stringMatch (.exact v)⟩ : Decode.PHeader), bad)
+    | "prefix" => pure (⟨key, .stringMatch (.pfx v)⟩, bad)
+    | "regex" => pure (⟨key, .stringMatch (.safeRegex (some v))⟩, bad)
     | _ => throw s!"matcher kind {t}")
+  let rejected := (hs.filter (·.2)).map (fun h => match h.1.spec with | .stringMatch (.safeRegex (some r)) => r | _ => "")
+  pure (Decode.buildMatchers { compiles := fun r => !rejected.contains r, parsesFloat := fun _ => true } (hs.map (·.1)))
 
 def parseRoute (j : Json) : Except String Route := do
   let cl ← jArr j "clusters"
